@@ -35,6 +35,7 @@ type World struct {
 	typeNames     map[int]types.Type
 	overlay       map[string][]byte
 	contractFiles []string
+	immutables    []Immutable
 	missing       []string
 	vacuity       bool
 	repo          string
